@@ -262,11 +262,14 @@ def run_roundtrip(prop: str, tier: str, seed: int, *, budget_s=None):
         for p, sym in outs:
             if p.get("slot") is None:
                 canon_fail[(p["template"], p["id"].split("|")[1])] = sym
+    failing_texts = {p["text"] for _, outs in res for p, _sym in outs}
     for _, outs in res:
         for p, sym in outs:
             base = (p["template"], p["id"].split("|")[1])
             if p.get("slot") is not None and canon_fail.get(base) == sym:
                 continue
+            if p.get("lead_of") and p["lead_of"] in failing_texts:
+                continue  # fails without the leading whitespace as well: reported there
             sig = G.signature(p, sym)
             if sig not in by_sig:
                 by_sig[sig] = dict(check="roundtrip", signature=sig, what=f"{prop} {sym} on program {p['id']}",
